@@ -6,10 +6,13 @@
   `cnt c a b` its length ("day-by-day counting"), `K c x = cnt c c.t0 (x-1)` the number of business days of the
   calendar before `x`, `InRange c s n` the guard "the business day `s` and the position `n` further are inside the
   calendar's table" — exactly the condition under which the real table lookup does not raise `KeyError`.
-  Every theorem holds for every holiday list, weekend list, range, convention and month function.
+  Every theorem holds for every holiday list, weekend list, range, convention and month function, unless it says
+  otherwise (`adjust_m_calendar_month` is about the driver's month function `ymKey`; the `…_nearest` theorems assume the
+  holidays are listed inside the calendar's range and the weekend leaves one weekday, `NonDeg`).
 -/
 import PygModel.Calendar
 import PygProofs.Lemmas.CalendarLemmas
+import PygProofs.Lemmas.CalendarEdge
 
 namespace Pyg.Props.C05
 open Pyg Pyg.Calendar
@@ -52,6 +55,156 @@ theorem adjust_m (c : Cal) (t : Int) :
     c.adjust .m t = if c.month (c.adjust .f t) = c.month t then c.adjust .f t else c.adjust .p t := by
   simp only [Cal.adjust]
   by_cases h : c.month (c.adjust .f t) = c.month t <;> simp_all [Cal.adjust]
+
+/-- the same as an equivalence, for every month function: `'m'` is `'f'` exactly when the following business day
+has `t`'s month (when it has not, `'m'` is `'p'`, which differs from `'f'` because `'p' ≤ t ≤ 'f'` and `t` itself
+has `t`'s month) -/
+theorem adjust_m_iff (c : Cal) (t : Int) :
+    (c.adjust .m t = c.adjust .f t ↔ c.month (c.adjust .f t) = c.month t) ∧
+    (c.month (c.adjust .f t) ≠ c.month t → c.adjust .m t = c.adjust .p t) := by
+  have hf := (adjF_spec c t).1
+  have hp := (adjP_spec c t).1
+  refine ⟨⟨fun h => ?_, fun h => ?_⟩, fun h => ?_⟩
+  · by_cases hm : c.month (c.adjF t) = c.month t
+    · exact hm
+    · have hm' : c.month (c.adjF t) ≠ c.month t := hm
+      simp only [Cal.adjust, hm', ne_eq, not_false_eq_true, if_true] at h
+      have : c.adjF t = t := by omega
+      rw [this] at hm
+      exact absurd rfl hm
+  · simp only [Cal.adjust] at h ⊢
+    simp [h]
+  · simp only [Cal.adjust] at h ⊢
+    simp [h]
+
+/-- "month" has its calendar meaning in the model the check runs: the driver's month function `ymKey` takes the same
+value on two days exactly when they lie in the same month of the same year -/
+theorem ymKey_eq_iff (a b : Int) :
+    ymKey a = ymKey b ↔ Civil.year a = Civil.year b ∧ Civil.month a = Civil.month b := ymKey_eq_iff' a b
+
+/-- … and `Civil.month` is a month number -/
+theorem civil_month_range (n : Int) : 1 ≤ Civil.month n ∧ Civil.month n ≤ 12 := month_range n
+
+/-- for the calendars the driver builds (`month = ymKey`): `'m'` equals `'f'` exactly when the following business day
+lies in the same calendar month of the same year as `t`, otherwise it equals `'p'` -/
+theorem adjust_m_calendar_month (c : Cal) (hm : c.month = ymKey) (t : Int) :
+    (c.adjust .m t = c.adjust .f t ↔
+      Civil.year (c.adjust .f t) = Civil.year t ∧ Civil.month (c.adjust .f t) = Civil.month t) ∧
+    (¬ (Civil.year (c.adjust .f t) = Civil.year t ∧ Civil.month (c.adjust .f t) = Civil.month t) →
+      c.adjust .m t = c.adjust .p t) := by
+  have h := adjust_m_iff c t
+  rw [hm, ymKey_eq_iff] at h
+  exact ⟨h.1, fun hn => h.2 (by rw [ne_eq, ymKey_eq_iff]; exact hn)⟩
+
+/-- only Sunday is a working day and the 53 Sundays 2020-01-19 … 2021-01-17 are holidays: a calendar with a holiday run
+longer than 12 months (2019-01-01 … 2022-01-01), with the month NUMBER as month function - what the pinned code
+compared (`t.month != date.month`, defect C05-D1) -/
+def sundayHols : List Int := (List.range 53).map fun (i : Nat) => 737443 + 7 * (i : Int)
+def sundaysByNumber : Cal :=
+  { t0 := 737060, t1 := 738156, weekend := [0, 1, 2, 3, 4, 5], hol := sundayHols, adj := .m, month := Civil.month }
+
+/-- why a month number is not "t's month": with `month = Civil.month` the following business day of Sun 2020-01-19 is
+Sun 2021-01-24 - another year - and `'m'` keeps it … -/
+theorem month_number_keeps_next_year :
+    Civil.year (sundaysByNumber.adjust .f 737443) ≠ Civil.year 737443 ∧
+    sundaysByNumber.adjust .m 737443 = sundaysByNumber.adjust .f 737443 := by decide +kernel
+
+/-- … whereas with the year-month key the same calendar falls back to the previous business day (Sun 2020-01-12) -/
+theorem ymKey_falls_back :
+    ({ sundaysByNumber with month := ymKey } : Cal).adjust .m 737443 = 737436 ∧
+    ({ sundaysByNumber with month := ymKey } : Cal).adjust .p 737443 = 737436 := by decide +kernel
+
+/-! ### adjust at the ends of the range
+
+The first pair of loops of `adjust` stops at `t1` (`t0`); the second pair only steps over WEEKEND days beyond it and
+never looks at the holiday list.  So: when every listed holiday lies inside the range (the docstring: "Calendar is
+restricted to operate between cal.t0 and cal.t1") `adjust 'f'/'p'` is the nearest business day without any further
+condition (`adjust_f_nearest`, `adjust_p_nearest`); when no business day is left in the range the result is the first
+non-weekend day beyond it (`adjust_f_outside`), which is a holiday if the caller listed one there
+(`adjust_f_outside_holiday`, a proved instance). -/
+
+/-- holidays inside the range, some weekday not a weekend day: `adjust(t,'f')` IS the nearest business day on or after
+`t`, for every `t` (no existence guard) -/
+theorem adjust_f_nearest (c : Cal) (hnd : NonDeg c) (hin : ∀ h ∈ c.hol, h ≤ c.t1) (t : Int) :
+    c.isB (c.adjust .f t) = true ∧ t ≤ c.adjust .f t ∧ ∀ b, t ≤ b → c.isB b = true → c.adjust .f t ≤ b := by
+  obtain ⟨h1, h2, h3⟩ := adjF_spec c t
+  have hb := (adjF_beyond c hnd t).1
+  show c.isB (c.adjF t) = true ∧ t ≤ c.adjF t ∧ ∀ b, t ≤ b → c.isB b = true → c.adjF t ≤ b
+  refine ⟨?_, h1, fun b hb1 hB => ?_⟩
+  · by_cases hle : c.adjF t ≤ c.t1
+    · exact h3 hle
+    · rcases hb with hb | hb
+      · exact absurd hb hle
+      · have hh : c.adjF t ∉ c.hol := fun hm => hle (hin _ hm)
+        simp [Cal.isB, hb, hh]
+  · by_cases hlt : b < c.adjF t
+    · have := h2 b hb1 hlt; rw [hB] at this; cases this
+    · omega
+
+theorem adjust_p_nearest (c : Cal) (hnd : NonDeg c) (hin : ∀ h ∈ c.hol, c.t0 ≤ h) (t : Int) :
+    c.isB (c.adjust .p t) = true ∧ c.adjust .p t ≤ t ∧ ∀ b, b ≤ t → c.isB b = true → b ≤ c.adjust .p t := by
+  obtain ⟨h1, h2, h3⟩ := adjP_spec c t
+  have hb := (adjP_beyond c hnd t).1
+  show c.isB (c.adjP t) = true ∧ c.adjP t ≤ t ∧ ∀ b, b ≤ t → c.isB b = true → b ≤ c.adjP t
+  refine ⟨?_, h1, fun b hb1 hB => ?_⟩
+  · by_cases hle : c.t0 ≤ c.adjP t
+    · exact h3 hle
+    · rcases hb with hb | hb
+      · exact absurd hb hle
+      · have hh : c.adjP t ∉ c.hol := fun hm => hle (hin _ hm)
+        simp [Cal.isB, hb, hh]
+  · by_cases hlt : c.adjP t < b
+    · have := h2 b hb1 hlt; rw [hB] at this; cases this
+    · omega
+
+/-- no business day left in `[t, t1]`: the result lies beyond `t1`, is not a weekend day, and every day beyond `t1`
+before it is a weekend day - the first non-weekend day after the range, whatever the holiday list says about it -/
+theorem adjust_f_outside (c : Cal) (hnd : NonDeg c) (t : Int) (h : ∀ b, t ≤ b → b ≤ c.t1 → c.isB b = false) :
+    c.t1 < c.adjust .f t ∧ wd (c.adjust .f t) ∉ c.weekend ∧
+    ∀ s, t ≤ s → c.t1 < s → s < c.adjust .f t → wd s ∈ c.weekend := by
+  obtain ⟨h1, _, h3⟩ := adjF_spec c t
+  obtain ⟨hb, hs⟩ := adjF_beyond c hnd t
+  show c.t1 < c.adjF t ∧ wd (c.adjF t) ∉ c.weekend ∧ ∀ s, t ≤ s → c.t1 < s → s < c.adjF t → wd s ∈ c.weekend
+  have hgt : c.t1 < c.adjF t := by
+    by_cases hle : c.adjF t ≤ c.t1
+    · have := h _ h1 hle; rw [h3 hle] at this; cases this
+    · omega
+  refine ⟨hgt, ?_, hs⟩
+  rcases hb with hb | hb
+  · omega
+  · exact hb
+
+theorem adjust_p_outside (c : Cal) (hnd : NonDeg c) (t : Int) (h : ∀ b, b ≤ t → c.t0 ≤ b → c.isB b = false) :
+    c.adjust .p t < c.t0 ∧ wd (c.adjust .p t) ∉ c.weekend ∧
+    ∀ s, s ≤ t → s < c.t0 → c.adjust .p t < s → wd s ∈ c.weekend := by
+  obtain ⟨h1, _, h3⟩ := adjP_spec c t
+  obtain ⟨hb, hs⟩ := adjP_beyond c hnd t
+  show c.adjP t < c.t0 ∧ wd (c.adjP t) ∉ c.weekend ∧ ∀ s, s ≤ t → s < c.t0 → c.adjP t < s → wd s ∈ c.weekend
+  have hgt : c.adjP t < c.t0 := by
+    by_cases hle : c.t0 ≤ c.adjP t
+    · have := h _ h1 hle; rw [h3 hle] at this; cases this
+    · omega
+  refine ⟨hgt, ?_, hs⟩
+  rcases hb with hb | hb
+  · omega
+  · exact hb
+
+/-- January 2000 (Sat 2000-01-01 = 730120 … Mon 2000-01-31 = 730150), Sat-Sun weekend, holidays Mon 31 Jan and
+Tue 1 Feb - the second one listed BEYOND the range -/
+def janEnd : Cal := { t0 := 730120, t1 := 730150, weekend := [5, 6], hol := [730150, 730151], adj := .f, month := ymKey }
+
+theorem janEnd_nonDeg : NonDeg janEnd := ⟨0, by decide, by decide, by decide⟩
+
+/-- a holiday listed beyond the range is returned as "business day": for a day inside the range of `janEnd`,
+`adjust(2000-01-31,'f')` = 2000-02-01 and `is_bday` of it is false.  (Outside the statement: see the section header.) -/
+theorem adjust_f_outside_holiday :
+    ∃ c t, NonDeg c ∧ c.t0 ≤ t ∧ t ≤ c.t1 ∧ c.adjust .f t = 730151 ∧ c.isB (c.adjust .f t) = false :=
+  ⟨janEnd, 730150, janEnd_nonDeg, by decide, by decide, by decide, by decide⟩
+
+theorem adjust_p_outside_holiday :
+    ∃ c t, NonDeg c ∧ c.t0 ≤ t ∧ t ≤ c.t1 ∧ c.isB (c.adjust .p t) = false :=
+  ⟨{ janEnd with t0 := 730122, hol := [730119, 730122] }, 730122, ⟨0, by decide, by decide, by decide⟩,
+    by decide, by decide, by decide⟩
 
 /-- a business day of the range is a fixed point of every convention -/
 theorem adjust_bday (c : Cal) (a : Adj) (t : Int) (h0 : c.t0 ≤ t) (h1 : t ≤ c.t1) (hB : c.isB t = true) :
@@ -160,6 +313,22 @@ theorem add_paths_agree_bwd (c : Cal) (a a' : Adj) (t : Int) (h : InRange c (c.a
   have h1 : InRange c (c.adjust a t) (-1) := ⟨h.1, h.2.1, h.2.2.1, by have := h.2.2.2.1; omega, by omega⟩
   exact add_add c a a' t (-1) (-1) h1 h
 
+/-- why the guard `InRange` is needed: at the end of the range the two paths really differ.  In `janEnd` the single
+steps go on (Thu 27 Jan → Fri 28 Jan → Wed 2 Feb, the loop runs past `t1`) while the table lookup `add(27 Jan, 2)`
+raises `KeyError` -/
+theorem add_paths_split :
+    ∃ (c : Cal) (t : Int), (∃ r, c.add .f t 1 = .ok r ∧ ∃ r', c.add .f r 1 = .ok r') ∧ c.add .f t 2 = .error .key :=
+  ⟨janEnd, 730146, ⟨730147, by rfl, 730152, by rfl⟩, by rfl⟩
+
+/-- the single-step path never raises: `add(t, ±1)` and `add(t, 0)` always return (in the model; the real loop of
+`add(t, 0)` does not end on a non-business adjusted day, which the driver refuses) -/
+theorem add_one_total (c : Cal) (a : Adj) (t : Int) :
+    (∃ r, c.add a t 1 = .ok r ∧ c.adjust a t < r) ∧ (∃ r, c.add a t (-1) = .ok r ∧ r < c.adjust a t) := by
+  refine ⟨⟨loopUp c.isHol c.addFuel (c.adjust a t + 1), by simp [Cal.add, Cal.addT], ?_⟩,
+    ⟨loopDown c.isHol c.addFuel (c.adjust a t - 1), by simp [Cal.add, Cal.addT], ?_⟩⟩
+  · have := loopUp_ge c.isHol c.addFuel (c.adjust a t + 1); omega
+  · have := loopDown_le c.isHol c.addFuel (c.adjust a t - 1); omega
+
 /-- `bdays(t, add(t, n)) == n` -/
 theorem bdays_add (c : Cal) (a : Adj) (t n : Int) (h : InRange c (c.adjust a t) n) :
     ∃ r, c.add a t n = .ok r ∧ c.bdaysBetween a t r = .ok n := by
@@ -256,7 +425,7 @@ theorem registry_last (month : Int → Int) (r : Registry) (k : String) (a : Cal
 /-! ### non-vacuity -/
 
 /-- 2020-01-01 (day 737425, a Wednesday) to 2020-02-15: New Year and Fri 31 Jan are holidays, Sat-Sun weekend -/
-def jan : Cal := { t0 := 737425, t1 := 737470, weekend := [5, 6], hol := [737425, 737455], adj := .m, month := Civil.month }
+def jan : Cal := { t0 := 737425, t1 := 737470, weekend := [5, 6], hol := [737425, 737455], adj := .m, month := ymKey }
 
 example : jan.adjust .f 737455 = 737458 ∧ jan.adjust .p 737455 = 737454 ∧ jan.adjust .m 737455 = 737454 := by decide
 example : jan.isB 737454 = true ∧ jan.isB 737455 = false ∧ jan.isB 737456 = false := by decide
@@ -269,9 +438,93 @@ example : InRange jan 737458 (-3) := by unfold InRange; decide
 /-- the hypotheses of `drange_1b` and `table_next` are satisfiable -/
 example : jan.drangeB 737455 737461 1 = .ok [737454, 737458, 737459, 737460, 737461] := by rfl
 example : jan.bdays[20]? = some 737454 ∧ 20 + 1 < jan.bdays.length := by decide
+/-- the hypotheses of `adjust_f_nearest` / `adjust_p_nearest` / `adjust_m_calendar_month` (holidays inside the range,
+Mon-Fri working, the driver's month key) and of `adjust_f_outside` (nothing but a holiday and a weekend left before `t1`) -/
+example : NonDeg jan ∧ (∀ h ∈ jan.hol, h ≤ jan.t1) ∧ (∀ h ∈ jan.hol, jan.t0 ≤ h) ∧ jan.month = ymKey :=
+  ⟨⟨0, by decide, by decide, by decide⟩, by decide, by decide, rfl⟩
+example : ∀ b, 730150 ≤ b → b ≤ janEnd.t1 → janEnd.isB b = false := by
+  intro b h1 h2
+  have : b = 730150 := by simp [janEnd] at h2; omega
+  subst this; decide
+example : ∀ b, b ≤ 737425 → jan.t0 ≤ b → jan.isB b = false := by
+  intro b h1 h2
+  have : b = 737425 := by simp [jan] at h2; omega
+  subst this; decide
 /-- the hypotheses of `registry_last`: a registration with holidays, then a fetch and another key's registration -/
 example : (CalArgs.mk (some [737455]) none none none).isDefault = false ∧
     ∀ op ∈ [("UK", CalArgs.mk none none none none), ("US", CalArgs.mk (some []) none none none)],
       op.1 = "UK" → op.2.isDefault = true := by decide
+
+/-! ### Calendar.drange(t0, t1, 'kb') for other k (generated; the property text names '1b') -/
+
+/-- any `k ≠ 0`, against the table: python's `range(i0, i1 + k, k)` many entries, the `i`-th one the table entry at
+position `i0 + k·i`, where `i0`, `i1` are the table positions of the adjusted endpoints -/
+theorem drange_kb (c : Cal) (x y k : Int) (lk : List Int) (h : c.drangeB x y k = .ok lk) :
+    ∃ i0 i1 : Nat, c.bdays[i0]? = some (c.adjust c.adj x) ∧ c.bdays[i1]? = some (c.adjust c.adj y) ∧ k ≠ 0 ∧
+      lk.length = pyRangeLen i0 (i1 + k) k ∧
+      ∀ i : Nat, i < lk.length → 0 ≤ (i0 : Int) + i * k ∧ lk[i]? = c.bdays[((i0 : Int) + i * k).toNat]? := by
+  obtain ⟨i0, i1, _, _, h0, h1, hk, len, get⟩ := drangeB_spec c x y k lk h
+  exact ⟨i0, i1, h0, h1, hk, len, get⟩
+
+/-- every k-th business day, k ≥ 1: at every position of the `'1b'` list, `l_k[i] = l_1[k·i]` (the `'kb'` list may have
+one more entry, see `drange_kb_overshoot`) -/
+theorem drange_kb_every_kth (c : Cal) (x y k : Int) (lk l1 : List Int) (hk : 1 ≤ k)
+    (hK : c.drangeB x y k = .ok lk) (h1 : c.drangeB x y 1 = .ok l1) :
+    ∀ i : Nat, k.toNat * i < l1.length → lk[i]? = l1[k.toNat * i]? := by
+  obtain ⟨i0, i1, c0, c1, _, _, _, len, get⟩ := drangeB_spec c x y k lk hK
+  obtain ⟨j0, j1, d0, d1, _, _, _, len1, get1⟩ := drangeB_spec c x y 1 l1 h1
+  rw [c0] at d0; rw [c1] at d1
+  cases d0; cases d1
+  intro i hi
+  have e : ((k.toNat * i : Nat) : Int) = (i : Int) * k := by
+    rw [Int.natCast_mul, Int.toNat_of_nonneg (by omega), Int.mul_comm]
+  have g1 := (get1 (k.toNat * i) hi).2
+  have hlt : i < lk.length := by
+    rw [len]
+    rw [len1] at hi
+    unfold pyRangeLen at hi ⊢
+    have hk0 : k > 0 := by omega
+    simp only [hk0, if_true]
+    have h10 : (1 : Int) > 0 := by omega
+    simp only [h10, if_true, Int.ediv_one] at hi
+    have : ((i : Int) + 1) ≤ ((i1 : Int) + k - i0 + k - 1) / k := by
+      rw [Int.le_ediv_iff_mul_le hk0, Int.add_mul]
+      omega
+    omega
+  have g := (get i hlt).2
+  rw [g, g1, e]
+  simp
+
+
+/-- `drange(x, y, '-1b')` walks the business days backwards: it is the reverse of `drange(y, x, '1b')` -/
+theorem drange_neg1b_reverse (c : Cal) (x y : Int) (lr l1 : List Int)
+    (hR : c.drangeB x y (-1) = .ok lr) (h1 : c.drangeB y x 1 = .ok l1) : lr = l1.reverse := by
+  obtain ⟨i0, i1, c0, c1, _, _, _, len, get⟩ := drangeB_spec c x y (-1) lr hR
+  obtain ⟨j0, j1, d0, d1, _, _, _, len1, get1⟩ := drangeB_spec c y x 1 l1 h1
+  rw [c1] at d0; rw [c0] at d1
+  cases d0; cases d1
+  have hn : ¬ ((-1 : Int) > 0) := by omega
+  have h10 : (1 : Int) > 0 := by omega
+  unfold pyRangeLen at len len1
+  simp only [hn, if_false, h10, if_true, Int.ediv_one, Int.neg_neg] at len len1
+  apply List.ext_getElem?
+  intro i
+  by_cases hi : i < lr.length
+  · have hi1 : l1.length - 1 - i < l1.length := by omega
+    rw [List.getElem?_reverse (by omega), (get i hi).2, (get1 _ hi1).2]
+    congr 1
+    omega
+  · rw [List.getElem?_eq_none (by omega), List.getElem?_eq_none (by simp; omega)]
+
+/-- for k > 1 the list can end on a business day AFTER the adjusted right endpoint (`range(i0, i1 + k, k)` overshoots
+when `k` does not divide `i1 - i0`): in `jan`, `drange(Mon 6 Jan, Thu 9 Jan, '2b')` = [6 Jan, 8 Jan, 10 Jan] -/
+theorem drange_kb_overshoot :
+    jan.drangeB 737430 737433 2 = .ok [737430, 737432, 737434] ∧ jan.adjust jan.adj 737433 = 737433 := ⟨by rfl, by decide⟩
+
+/-- the hypotheses of `drange_kb_every_kth` / `drange_neg1b_reverse` are satisfiable -/
+example : jan.drangeB 737430 737440 3 = .ok [737430, 737433, 737438, 737441] ∧
+    jan.drangeB 737430 737440 1 = .ok [737430, 737431, 737432, 737433, 737434, 737437, 737438, 737439, 737440] :=
+  ⟨by rfl, by rfl⟩
+example : jan.drangeB 737440 737430 (-1) = .ok [737440, 737439, 737438, 737437, 737434, 737433, 737432, 737431, 737430] := by rfl
 
 end Pyg.Props.C05
